@@ -17,6 +17,7 @@ use ::core::marker::PhantomData;
 pub trait Tr { type A; }
 pub trait Tr2 {}
 pub trait Tr3<X: ?Sized> {}
+pub trait TrL<'a>: 'a {}
 impl Tr for u8 { type A = u8; }
 impl Tr2 for u8 {}
 /// carrier: uses every declared parameter (through X and N) and implements every trait any derive needs, for all X, N
@@ -423,7 +424,7 @@ EXOTIC_TYPES = ["fn(u8) -> u8", "*const u8", "[u8; 4]", "(u8, i8)", "&'static st
                 "H<(), { if true { 5 } else { 2 } }>", "[u64; loop { break 1 }]",
                 # the deriving type named `Self` inside its own fields
                 "Option<Box<Self>>", "Vec<Self>", "fn(&Self) -> u8", "*const Self",
-                # a trait object whose lifetime is left implicit, behind a raw pointer (known finding c01-implicit-object-lifetime-behind-pointer)
+                # a trait object whose lifetime is left implicit, behind a raw pointer (was the known finding c01-implicit-object-lifetime-behind-pointer)
                 "*const dyn ::core::fmt::Debug", "(u8, *mut dyn ::core::fmt::Debug)"]
 AGNOSTIC = ["Constructor", "From", "Into", "IsVariant", "Unwrap", "TryUnwrap", "TryInto", "TryFrom"]
 EXOTIC_SHAPES = (["struct S(%s);" % t for t in EXOTIC_TYPES] + ["struct S { a: %s, b: u8 }" % t for t in EXOTIC_TYPES] +
@@ -579,6 +580,8 @@ def part_accepted_compiles(chk, thorough):
         ("TryInto", "#[try_into(owned, ref, ref_mut)] enum S where Self: Tr2 { A(H<(), 1>), B(H<(), 2>) }", "impl Tr2 for S {}"),
         ("IntoIterator", "#[into_iterator(owned, ref, ref_mut)] struct S(Vec<u8>) where Self: Tr2;", "impl Tr2 for S {} #[allow(dead_code)] fn _use(mut s: S) { for _ in &s {} for _ in &mut s {} for _ in s {} }"),
         ("From", "struct S(H<(), 1>) where Self: Tr2;", "impl Tr2 for S {}"),
+        # a bare trait-object field whose trait has a lifetime bound of its own (the object lifetime defaults to it, not to 'static)
+        ("AsRef", "struct S<'a>(u8, #[as_ref] dyn TrL<'a>);", ""), ("AsMut", "struct S<'a>(dyn TrL<'a>);", ""), ("AsRef", "struct S<'a> { #[as_ref] a: Box<u8>, #[as_ref] b: dyn TrL<'a> + Send }", ""),
         ("Sum", "struct S<T>(T);", "impl<T: ::core::ops::Add<Output = T>> ::core::ops::Add for S<T> { type Output = Self; fn add(self, o: Self) -> Self { S(self.0 + o.0) } }"),
     ]
     for d, it, companion, *kid in hand:
